@@ -2315,7 +2315,7 @@ def main(chk: C.Check, build: C.Build) -> None:
     # (fixed in a1c4a1d; run under every environment configuration: a guard that only runs
     # at parse time is skipped by validate_filter_arguments=False)
     fenv = make_env(True, False)
-    for rnd in range(1 if not thorough else 4):
+    for rnd in range(1 if not thorough else 2):
         kdata = g.data() + special_objs(g)
         kv = [k for k, _ in kdata]
         for fi, fname in enumerate(sorted(fenv.filters)):
